@@ -10,6 +10,7 @@ stable = set(base["stable_pass"])
 out = tempfile.mktemp(suffix=".xml")
 env = dict(os.environ, PYTHONPATH=os.path.join(wt, "src"))
 cmd = ["/venv/bin/python", "-m", "pytest", "-q", "-p", "no:cacheprovider", "--timeout=900", "--continue-on-collection-errors", "-n", n, f"--junitxml={out}"]
+WT, ENV = wt, env
 p = subprocess.run(cmd, cwd=wt, capture_output=True, text=True, env=env)
 passed, failed = set(), set()
 for tc in ET.parse(out).getroot().iter("testcase"):
@@ -22,6 +23,20 @@ for tc in ET.parse(out).getroot().iter("testcase"):
         passed.add(name)
 os.unlink(out)
 missing = sorted(stable - passed)
+# RETRY: tests with wall-clock budgets fail under machine load; re-run the lost ones alone before counting them
+if missing and len(missing) <= 8:
+    still = []
+    for m in missing:
+        cls, name = m.split("::")
+        parts = cls.split(".")
+        node = "/".join(parts[:-1]) + ".py::" + parts[-1] + "::" + name
+        r = subprocess.run(["/venv/bin/python", "-m", "pytest", "-q", "-p", "no:cacheprovider", "--timeout=900", node], cwd=WT, capture_output=True, text=True, env=ENV)
+        if r.returncode != 0:
+            still.append(m)
+        else:
+            print("  (passed when re-run alone:", m + ")")
+            passed.add(m)
+    missing = still
 print(f"passed={len(passed)} failed={len(failed)} stable_pass={len(stable)} stable_now_not_passing={len(missing)}")
 for m in missing:
     print("  REGRESSION:", m)
